@@ -88,14 +88,15 @@ def check_state(U, enc, obs, cache):
     return si
 
 
-def run_transition(U, enc, pre_obs, pre_abs, op, acc, hist, cache, obs_cache, pre_ok=True):
+def run_transition(U, enc, pre_obs, pre_abs, op, acc, hist, cache, obs_cache, pre_ok=True, facade=None, restore=True):
     """Execute one transition from state enc; report violations into acc; return (post_enc, StateInfo) or None."""
-    U.restore(enc)
-    fam = op[0]
+    if restore:
+        U.restore(enc)
+    fam = op[0] if facade is None else 'held:' + op[0]
     exc = None
     ret = None
     try:
-        ret = O.apply(U, op)
+        ret = O.apply(U, op, facade=facade)
     except RecursionError as e:
         exc = e
     except Exception as e:  # noqa
@@ -139,7 +140,7 @@ def run_transition(U, enc, pre_obs, pre_abs, op, acc, hist, cache, obs_cache, pr
     # ---- C15 ----------------------------------------------------------------------------
     if exc is not None:
         multi = False
-        if fam in ('list=', 'list+=', '//', 'move_before', 'move_after', 'pred=', 'pred+=', 'succ=', 'succ+=') \
+        if op[0] in ('list=', 'list+=', '//', 'move_before', 'move_after', 'pred=', 'pred+=', 'succ=', 'succ+=') \
                 and len(op[2]) >= 2:
             multi = True
         acc.count('c15_premise_raise')
@@ -179,8 +180,8 @@ def run_transition(U, enc, pre_obs, pre_abs, op, acc, hist, cache, obs_cache, pr
                               f'{O.describe(op)} returned {ret}, documented {exp_ret}', case())
     else:
         acc.count('nontrivial_rejected')
-        if eff is not O.SKIP and eff and fam in ATTACH_FAMILIES | {'insert'}:
-            if fam != 'insert' or 0 <= op[2] <= len(O._lst(pre_abs, op[1])):
+        if eff is not O.SKIP and eff and op[0] in ATTACH_FAMILIES | {'insert'}:
+            if op[0] != 'insert' or 0 <= op[2] <= len(O._lst(pre_abs, op[1])):
                 if all(_dup_ids_abs(U, b) for b in eff):
                     acc.count('c05_premise_would_duplicate_id')
                     if not isinstance(exc, RuntimeError) or isinstance(exc, RecursionError):
@@ -188,7 +189,7 @@ def run_transition(U, enc, pre_obs, pre_abs, op, acc, hist, cache, obs_cache, pr
                                       f'{O.describe(op)} would duplicate an id and raised {type(exc).__name__}, not RuntimeError',
                                       case())
         # C11 (c): re-attachment of a free detached root must be accepted
-        if pre_ok and fam in ('//1', 'append') and op[1][0] == 'W':
+        if pre_ok and op[0] in ('//1', 'append') and op[1][0] == 'W':
             y = op[2]
             k = op[1][1]
             if _free_root(pre_abs, y):
@@ -199,7 +200,7 @@ def run_transition(U, enc, pre_obs, pre_abs, op, acc, hist, cache, obs_cache, pr
                     acc.violation('C11', sig('free-root-attach-rejected'),
                                   f'{O.describe(op)} rejected ({type(exc).__name__}) although t{y} is a detached root '
                                   f'with ids disjoint from W{k}', case())
-    if exc is None and fam in ('//1', 'append') and op[1][0] == 'W' and _free_root(pre_abs, op[2]):
+    if exc is None and op[0] in ('//1', 'append') and op[1][0] == 'W' and _free_root(pre_abs, op[2]):
         acc.count('c11_premise_free_root_attach')
     return post_enc, si
 
@@ -250,6 +251,104 @@ def _expand_chunk(chunk):
         sys.setrecursionlimit(old_limit)
     acc.extra['new'] = [(k, v) for k, v in new.items()]
     return acc
+
+
+FACADE_FAMS = {'append', 'remove', 'insert', 'move_before', 'move_after', 'move_none', 'move_both', 'sort', 'sort_bad', 'reorder',
+               'remove_all_id', 'remove_all_fn', 'list<<', 'list>>', 'list.parent='}
+LINK_FACADE_SUFFIXES = ('.append', '.remove', '.remove_all_id')
+
+
+def _held_chunk(chunk):
+    """Held-facade transitions: a list facade (x.children, W.roots, x.predecessors, x.successors) is taken in state S, another
+    operation runs, then a mutator is called through the facade taken earlier. The call is checked like any other
+    transition from the state it is made in (state invariants, C15, C16): holding a facade is ordinary use of the public API."""
+    U, cfg = _U, _CFG
+    ops = _OPS
+    quick = cfg.get('held_quick', True)
+    acc = runtime.Acc()
+    cache, obs_cache = {}, {}
+    old_limit = sys.getrecursionlimit()
+    sys.setrecursionlimit(cfg.get('reclimit', 400))
+    conts = [('T', i) for i in range(U.n)] + [('W', k) for k in range(U.m)]
+    by_cont = {c: [o for o in ops if o[0] in FACADE_FAMS and o[1] == c] for c in conts}
+    if quick:
+        for c in conts:
+            by_cont[c] = [o for o in by_cont[c] if not (o[0] in ('move_before', 'move_after') and len(o[2]) > 1)
+                          and not (o[0] == 'insert' and o[2] not in (0, 1, 2))]
+    first_fams = {'sort', 'reorder', 'list=', 'remove', 'append', 'parent', 'W.remove', 'remove_all_fn'} if quick else None
+    try:
+        for enc, hist in chunk:
+            for c in conts:
+                firsts = [o for o in ops if (o[0] == 'parent' or (len(o) > 1 and o[1] == c) or o[0] == 'W.remove')
+                          and not o[0].startswith(('pred', 'succ')) and o[0] != 'Task()'
+                          and (first_fams is None or o[0] in first_fams)]
+                for op1 in firsts:
+                    # state after op1 (op1 itself is an ordinary transition, checked elsewhere)
+                    U.restore(enc)
+                    try:
+                        O.apply(U, op1)
+                    except Exception:  # noqa
+                        continue
+                    enc1 = U.encode()
+                    if enc1 == enc:
+                        continue
+                    obs1 = obs_cache.get(enc1)
+                    if obs1 is None:
+                        obs1 = obs_cache[enc1] = U.observe()
+                    if core.state_violations(U, obs1):
+                        continue
+                    abs1 = core.abstract(obs1, U.n, U.m)
+                    for op3 in by_cont[c]:
+                        U.restore(enc)
+                        F = O._facade(U, c)
+                        O.apply(U, op1)
+                        acc.count('held_facade_transitions')
+                        run_transition(U, enc1, obs1, abs1, op3, acc, hist + (op1,), cache, obs_cache, True, facade=F, restore=False)
+            # link-list facades
+            for x in range(U.n):
+                for side in ('pred', 'succ'):
+                    firsts = [o for o in ops if o[0].startswith(side) and o[1] == x and o[0][4:] in ('=', '.append', '.remove')]
+                    thirds = [o for o in ops if o[0].startswith(side) and o[1] == x and o[0][4:] in LINK_FACADE_SUFFIXES]
+                    for op1 in firsts:
+                        U.restore(enc)
+                        try:
+                            O.apply(U, op1)
+                        except Exception:  # noqa
+                            continue
+                        enc1 = U.encode()
+                        if enc1 == enc:
+                            continue
+                        obs1 = obs_cache.get(enc1)
+                        if obs1 is None:
+                            obs1 = obs_cache[enc1] = U.observe()
+                        if core.state_violations(U, obs1):
+                            continue
+                        abs1 = core.abstract(obs1, U.n, U.m)
+                        for op3 in thirds:
+                            U.restore(enc)
+                            F = U.tasks[x].predecessors if side == 'pred' else U.tasks[x].successors
+                            O.apply(U, op1)
+                            acc.count('held_facade_transitions')
+                            run_transition(U, enc1, obs1, abs1, op3, acc, hist + (op1,), cache, obs_cache, True, facade=F, restore=False)
+    finally:
+        sys.setrecursionlimit(old_limit)
+    return acc
+
+
+def held_facades(uname, states, acc, quick=True):
+    """Run the held-facade transitions from the given states (dict enc -> history) of universe uname."""
+    global _U, _OPS, _CFG
+    U = make_universe(uname)
+    saved = U.alphabet
+    U.alphabet = 'full'
+    _OPS = O.alphabet(U)
+    U.alphabet = saved
+    _U, _CFG = U, {'reclimit': 400, 'held_quick': quick}
+    t0 = acc.counters['held_facade_transitions']
+    items = list(states.items())
+    for r in runtime.pmap(_held_chunk, runtime.split(items, runtime.n_workers() * 4)):
+        acc.merge(r)
+    return acc.counters['held_facade_transitions'] - t0
 
 
 def explore(uname, acc, max_depth=None, state_cap=250000, time_cap=None, collect=False, max_links=None, phase2=None):
